@@ -89,13 +89,23 @@ func genPrintFile(r *RNG, k int) *genFile {
 			ctx.AllocLocal(1 + r.Intn(7)) // unaligned local
 		}
 		nn := r.Intn(18)
+		// a few functions with one long uninterrupted run of instructions (unrolled kernels)
+		long := 0
+		if k >= 1 && k <= 9 && s == nsec-1 {
+			long = []int{63, 64, 69, 78, 79, 127, 132, 200, 300}[k-1]
+			nn = long
+		}
 		nl := 1 + nn/5
 		defined := map[string]bool{}
 		used := map[string]bool{}
 		gp := []reg.GPVirtual{ctx.GP64(), ctx.GP64(), ctx.GP64()}
 		xs := []reg.VecVirtual{ctx.XMM(), ctx.YMM()}
 		for j := 0; j < nn; j++ {
-			switch r.Intn(16) {
+			choice := r.Intn(16)
+			if long > 0 {
+				choice = 7 + r.Intn(7) // one instruction each: the block has long+1 instructions with the final RET
+			}
+			switch choice {
 			case 0, 1:
 				l := fmt.Sprintf("l%d", r.Intn(nl))
 				if !defined[l] {
@@ -460,6 +470,28 @@ func checkObjdump(o *Out, idx int, g *genFile, dump string, text string) {
 					misordered = "label " + string(x)
 				}
 				p++
+			}
+		}
+		// the function's text has one instruction line per instruction of the program, in order, whatever
+		// the length of the block they stand in
+		{
+			var have []string
+			for q := pos + 1; q < len(lines) && !strings.HasPrefix(lines[q], "TEXT ") && !strings.HasPrefix(lines[q], "DATA ") && !strings.HasPrefix(lines[q], "GLOBL "); q++ {
+				if t := strings.TrimPrefix(lines[q], "\t"); t != lines[q] && !strings.HasPrefix(t, "//") && t != "" {
+					have = append(have, strings.Fields(t)[0])
+				}
+			}
+			var wantOps []string
+			for _, in := range fn.Instructions() {
+				wantOps = append(wantOps, in.OpcodeWithSuffixes())
+			}
+			if strings.Join(have, " ") != strings.Join(wantOps, " ") {
+				at := 0
+				for at < len(have) && at < len(wantOps) && have[at] == wantOps[at] {
+					at++
+				}
+				o.Plan.GoViolations = append(o.Plan.GoViolations, GoViolation{Key: "print:instruction-lines", Desc: fmt.Sprintf("case %d: %s has %d instructions but its printed text has %d instruction lines (first difference at instruction %d)", idx, fn.Name, len(wantOps), len(have), at+1), Replay: map[string]any{"file": g.Desc, "text": text}})
+				return
 			}
 		}
 		if misordered != "" {
